@@ -61,7 +61,7 @@ def run(res):
     quick = res.tier == "quick"
     lib.proof_stage(res, "C16.v", "Props.C16", PINNED)
     cov = res.coverage
-    n = 120 if quick else 2500
+    n = 120 if quick else 2000
     out = lib.run_harness("kvv", "all", res.seed, n, res.tier, timeout=3000)
     cases = out["CASE"]
     stats = out.get("STATS", [{}])[0]
